@@ -13,6 +13,7 @@ From Coq Require Import List Bool String Ascii NArith ZArith Lia.
 From NV Require Import Base Regex Generated GoLib C01_Model C01_Proofs C01_Gen C01_GenProofs C01_VerifyE2E.
 From NV Require VerifyCore C02_Levels C02_Model C02_Struct C02_Gen C02_GenProofs C02_GenSig.
 From NV Require C08_Model C08_Proofs C08_Gen C08_GenProofs.
+From NV Require C01_VerifyE2E_PSErr.
 Import ListNotations.
 Local Open Scope string_scope.
 Local Open Scope list_scope.
@@ -322,6 +323,37 @@ Proof.
   destruct (Env eq_refl) as [env [X Y]]. exists env. split; assumption.
 Qed.
 
+(* processSignature never assigns outcome.Error (C01_VerifyE2E_PSErr: a walk over every path of
+   C02's generated term), so with a processPluginResponse that leaves that field alone the
+   outcome comes back with the nil Error Verify put there *)
+Lemma ps_c02_error_none v sig opts pol F :
+  C01_VerifyE2E_PSErr.ppr_frame O ->
+  C02_GenSig.Describes O (call_of v sig opts pol) F ->
+  VerificationOutcome_Error C (fst (ps_answer C PM ps_c02 v sig opts pol)) = None.
+Proof.
+  intros Hf D. destruct (ps_c02_answer v sig opts pol F D) as (out & e & A & R & _ & _).
+  rewrite A. cbn [fst o21 VerificationOutcome_Error].
+  rewrite (C01_VerifyE2E_PSErr.processSignature_error_unchanged O _ out e Hf R). reflexivity.
+Qed.
+
+(* ... and the middle disjunct of [compose_rejects_iff] disappears: the generated Verify over the
+   generated processSignature REJECTS IFF the VerifyCore model rejects OR a post-check fails *)
+Theorem compose_rejects_iff_exact : forall gatp v desc sig opts pol F,
+  Selected C PM gatp v opts pol ->
+  skip_test (level_ptr (OCITrustPolicy_SignatureVerification pol)) = false ->
+  C02_GenSig.Describes O (call_of v sig opts pol) F ->
+  C01_VerifyE2E_PSErr.ppr_frame O ->
+  exists po e, Verify C PM gatp ps_c02 unm v desc sig opts = Some (po, e)
+    /\ (e <> None <->
+        core_rejects (call_of v sig opts pol) F
+        \/ ~ PostChecksPass C unm (fst (ps_answer C PM ps_c02 v sig opts pol)) desc (VerifierVerifyOptions_UserMetadata opts)).
+Proof.
+  intros gatp v desc sig opts pol F Hsel S D Hf.
+  destruct (compose_rejects_iff gatp v desc sig opts pol F Hsel S D) as (po & e & V & I).
+  exists po, e. split; [exact V|]. rewrite I. rewrite (ps_c02_error_none v sig opts pol F Hf D).
+  split; [intros [H|[H|H]]; [left; exact H|now elim H|right; exact H]|intros [H|H]; [left; exact H|right; right; exact H]].
+Qed.
+
 (* ---------- (a) no panic, with both oracles instantiated ---------- *)
 
 (* Verify over C08's generated selection and C02's generated processSignature never panics,
@@ -354,4 +386,92 @@ Proof.
   cbn [ptr_val] in T. inversion T. exists d, c, s. split; [exact Hd|]. split; [reflexivity|]. split; assumption.
 Qed.
 
+(* ---------- "intact", from the bottom: the verifyIntegrity oracle is C01's generated verifyIntegrity ---------- *)
+
+(* When what the verifyIntegrity oracle of C02's processSignature answers on the call Verify makes IS
+   what C01's generated verifyIntegrity (theories/C01_Gen.v, C01_e2e_verifyIntegrity_equiv) answers,
+   success of the composed Verify means: signature.ParseEnvelope succeeded, Envelope.Verify returned
+   no error, and the payload content type is the Notary one — the model's [Intact], on facts defined
+   from notation-core-go's two entry points *)
+Theorem compose_success_intact :
+  forall (SE : Type) (parse : string -> list Z -> SE * option GoLib.err)
+         (everify : ptr (signature_EnvelopeContent C) * option GoLib.err)
+         gatp v desc sig opts pol F po envp irp decode,
+  Selected C PM gatp v opts pol ->
+  skip_test (level_ptr (OCITrustPolicy_SignatureVerification pol)) = false ->
+  C02_GenSig.Describes O (call_of v sig opts pol) F ->
+  let o0 := out0 C sig (level_ptr (OCITrustPolicy_SignatureVerification pol)) in
+  let mt := VerifierVerifyOptions_SignatureMediaType opts in
+  gen_verifier_verifyIntegrity SE parse C everify sig mt o0 = Some (envp, irp) ->
+  C02_GenSig.or_integrity O sig mt (PNew (o12 C o0)) = (ptr_map (ec12 C) envp, ptr_map vr12 irp) ->
+  Verify C PM gatp ps_c02 unm v desc sig opts = Some (po, None) ->
+  Intact (integrity_facts SE parse C everify mt sig decode).
+Proof.
+  intros SE parse everify gatp v desc sig opts pol F po envp irp decode Hsel S D o0 mt G Hor V.
+  destruct (compose_success gatp v desc sig opts pol F po Hsel S D V) as (_ & I & _).
+  assert (Iok : C02_GenSig.ft_integrity_ok F = true) by exact I.
+  destruct D as (D1 & D2 & _ & D4 & _).
+  assert (Hl : exists lvl, ptr_val (VerificationOutcome_VerificationLevel C o0) = Some lvl).
+  { cbn [call_of K_of C02_GenSig.cl_outcome o12 C02_Gen.VerificationOutcome_VerificationLevel] in D4.
+    rewrite ptr_val_map in D4. fold o0 in D4.
+    destruct (ptr_val (VerificationOutcome_VerificationLevel C o0)) as [lvl|]; [eauto|discriminate]. }
+  destruct Hl as [lvl Hl].
+  pose proof (gen_verifyIntegrity_equiv SE parse C everify sig mt o0 lvl decode Hl) as Q. cbv zeta in Q.
+  rewrite G in Q. destruct Q as (r & Er & _ & _ & Q & _).
+  apply verify_integrity_none. apply Q.
+  cbn [call_of K_of C02_GenSig.cl_sig C02_GenSig.cl_media C02_GenSig.cl_outcome] in D1. fold o0 mt in D1.
+  rewrite Hor in D1. inversion D1 as [[E1 E2]]. rewrite <- E2 in D2. subst irp.
+  destruct D2 as (r2 & P & _ & _ & Fl). cbn [ptr_map ptr_val] in P. inversion P; subst r2.
+  rewrite Iok in Fl. unfold C02_GenProofs.vr_failed in Fl. cbn [vr12 C02_Gen.ValidationResult_Error VerifyCore.r_failed negb] in Fl.
+  destruct (ValidationResult_Error r); [discriminate|reflexivity].
+Qed.
+
 End Compose.
+
+(* ---------- non-vacuity: all three generated functions, run together ---------- *)
+(* C02's example oracles (an intact envelope, an expired signature under the permissive level,
+   no revocation validator), a verifier whose document has one statement for every repository *)
+Definition y_sv : trustpolicy_SignatureVerification := mk_SignatureVerification "permissive" [] "".
+Definition y_pol : trustpolicy_OCITrustPolicy :=
+  mk_OCITrustPolicy "policy" y_sv ["ca:s"] ["x509.subject: CN=leaf"] ["*"].
+Definition y_v : verifier_verifier unit unit :=
+  mk_verifier unit unit (PNew (mk_OCIDocument "1.0" [y_pol])) PNil (fun _ _ => ([tt], None)) PNil PNil PNil PNil.
+Definition y_opts (md : list (string * string)) : notation_go_VerifierVerifyOptions :=
+  mk_VerifierVerifyOptions "reg.io/a/b@sha256:aa" "application/jose+json" [] md.
+Definition y_desc : v1_Descriptor :=
+  mk_Descriptor "application/vnd.oci.image.manifest.v1+json" "sha256:aa" 528 [] [] [] PNil "".
+Definition y_unm : list Z -> envelope_Payload -> envelope_Payload * option GoLib.err :=
+  fun _ _ => (mk_Payload (mk_Descriptor "application/vnd.oci.image.manifest.v1+json" "sha256:aa" 528 [] [("k1", "v1")] [] PNil ""), None).
+
+Lemma compose_example :
+  (* C08's generated selection picks the statement *)
+  Selected unit unit gatp_c08 y_v (y_opts [("k1", "v1")]) y_pol
+  (* C02's hypotheses hold of the call Verify makes, and processPluginResponse keeps the frame *)
+  /\ C02_GenSig.Describes C02_GenSig.ex_O (call_of C02_GenSig.ex_O y_v [] (y_opts [("k1", "v1")]) y_pol) C02_GenSig.ex_F
+  /\ C01_VerifyE2E_PSErr.ppr_frame C02_GenSig.ex_O
+  (* the composed entry point accepts, with the five results of processSignature in the outcome *)
+  /\ (exists o, Verify unit unit gatp_c08 (ps_c02 C02_GenSig.ex_O) y_unm y_v y_desc [] (y_opts [("k1", "v1")])
+                = Some (PNew o, None)
+                /\ List.length (VerificationOutcome_VerificationResults unit o) = 5%nat)
+  (* and rejects the same signature for a descriptor of another size: the mismatch *)
+  /\ (exists po, Verify unit unit gatp_c08 (ps_c02 C02_GenSig.ex_O) y_unm y_v (set_Descriptor_Size 529 y_desc) []
+                   (y_opts [("k1", "v1")]) = Some (po, Some mismatch_err)).
+Proof.
+  split. { split; [reflexivity|]. eexists. split; vm_compute; reflexivity. }
+  split.
+  { unfold C02_GenSig.Describes. cbv zeta.
+    split; [reflexivity|]. split; [eexists; repeat split; reflexivity|]. split; [reflexivity|]. split; [reflexivity|].
+    split. { intros a [<-|[]] H. vm_compute in H. discriminate. }
+    split; [reflexivity|]. split; [intros H; now elim H|].
+    split. { intros _ o _. eexists. repeat split; reflexivity. }
+    split. { intros o _. eexists. repeat split; reflexivity. }
+    split. { intros o _. eexists. repeat split; reflexivity. }
+    split. { split; [|discriminate]. intros (rs & H & _). discriminate. }
+    split; [exact C02_GenSig.ex_cmp_agrees|]. split; [exact C02_GenSig.ex_cmp_range|].
+    split; [reflexivity|]. split; [split; reflexivity|].
+    intros cs o news rs processed ti rev _ _ _ H. discriminate. }
+  split. { intros cs resp o. reflexivity. }
+  split.
+  - eexists. split; vm_compute; reflexivity.
+  - eexists. vm_compute. reflexivity.
+Qed.
